@@ -2462,6 +2462,22 @@ class Interp:
                 return Unk('np.take_along_axis', e)
             if last in ('diagonal', 'transpose', 'swapaxes') and args and isinstance(self._as_arr(args[0]), Arr):
                 return self.method(self._as_arr(args[0]), last, list(args[1:]), kw, e, mod)           # np.f(x, ...) is x.f(...)
+            if last == 'copyto' and len(args) >= 2 and isinstance(e, ast.Call) and e.args:
+                # np.copyto(dst, src, where=mask): dst[mask] = src (or dst[...] = src), in place
+                wn_ = next((k_.value for k_ in e.keywords if k_.arg == 'where'), None)
+                # the mask is broadcast against dst, i.e. aligned with its last axes:  dst[..., mask]
+                dst_ = self._as_arr(args[0])
+                wv_ = kw.get('where')
+                lead_ = (dst_.ndim - wv_.ndim) if isinstance(dst_, Arr) and isinstance(wv_, Arr) else 0
+                sl_ = ast.Constant(value=Ellipsis) if wn_ is None else (wn_ if lead_ <= 0 else ast.Tuple(elts=[ast.Slice() for _ in range(lead_)] + [wn_], ctx=ast.Load()))
+                tgt_ = ast.Subscript(value=e.args[0], slice=sl_, ctx=ast.Store())
+                ast.copy_location(tgt_, e); ast.fix_missing_locations(tgt_)
+                src_ = args[1]
+                wm_ = kw.get('where')
+                if isinstance(wm_, Arr) and isinstance(src_, Arr) and src_.ndim >= 1 and src_.mask is None and _is_boolean(wm_.poly):
+                    src_ = src_.with_(mask=wm_.poly)          # the elements of src at the positions where the mask holds
+                self.store_sub(tgt_, src_, self.frames[-1], mod)
+                return None
             if last == 'clip':
                 x, lo, hi = [self._as_arr(v) for v in (args[0], kw.get('a_min', args[1] if len(args) > 1 else None), kw.get('a_max', args[2] if len(args) > 2 else None))]
                 if any(isinstance(v, Unk) for v in (x, lo, hi)):
